@@ -99,6 +99,54 @@ export function runHistory(ctx, c, res) {
   c.nontrivial = changedOnce && setters > 0
 }
 
+/** Data fields read by structural expressions (wx:for lists, wx:if conditions, template data, slot names):
+ *  mutations are biased towards them, because their update-path trees are handed on to sub-structures. */
+function structuralRoots(fs_) {
+  const roots = new Set()
+  const visit = (nodes) => {
+    for (const n of nodes) {
+      if (['for', 'if', 'tref', 'slot'].includes(n.t)) for (const v of M.nodeValues(n)) for (const e of M.valueExprs(v)) X.walk(e, (x) => { if (x.t === 'id') roots.add(x.name) })
+      for (const l of M.childLists(n)) visit(l)
+    }
+  }
+  for (const f of Object.values(fs_.files)) { visit(f.children || []); for (const d of f.defs || []) visit(d.children || []) }
+  return [...roots]
+}
+
+/** Focus nodes: structures whose list / condition / template data is a computed expression with side
+ *  dependencies, and whose body shows item fields, so that a lost or mis-shaped sub-tree is visible. */
+function focusNodes(r, fs_) {
+  const items = X.mem(X.id('obj'), 'items')
+  const side = [
+    () => X.bin('&&', X.id('obj'), items),
+    () => X.bin('||', items, X.id('list')),
+    () => X.cond(X.id('flag'), items, X.id('list')),
+    () => X.idx(X.id('obj'), X.str('items')),
+    () => X.bin('??', X.mem(X.id('ob'), 'zz'), items),
+    () => X.bin('||', X.bin('&&', X.id('flag'), X.id('list')), items),
+    () => items,
+    () => X.id('list'),
+  ]
+  const it = (f) => X.mem(X.id('item'), f)
+  const body = () => ({ t: 'el', tag: 'q', attrs: [{ fam: 'plain', name: 'v', value: M.ev(it('v')) }, { fam: 'data:', name: 'x', value: M.ev(it('x')) }], children: [{ t: 'text', v: M.mv('#', it('id'), ':', X.id('index'), ':', X.id(r.pick(['a', 'flag', 's'])), ':', X.idx(it('sub'), X.num('1'))) }] })
+  const out = []
+  const k = r.range(1, 2)
+  for (let i = 0; i < k; i++) {
+    const kind = r.int(10)
+    if (kind < 6) {
+      let node = body()
+      if (r.bool(0.3)) node = { t: 'for', list: M.ev(X.bin('||', it('sub'), X.id('arr'))), item: 'x', index: 'j', key: undefined, cond: null, node: { t: 'el', tag: 'r', attrs: [{ fam: 'plain', name: 'v', value: M.mv('', X.id('x'), '/', X.id('j'), '/', it('v')) }], children: [] } }
+      out.push({ t: 'for', list: M.ev(r.pick(side)()), item: undefined, index: undefined, key: r.pick([undefined, undefined, 'k', 'id']), cond: r.bool(0.2) ? M.ev(X.bin('||', it('v'), X.id('flag'))) : null, node })
+    } else if (kind < 8) {
+      out.push({ t: 'if', branches: [{ cond: M.ev(X.bin('&&', X.id('obj'), X.mem(X.mem(X.id('obj'), 'items'), 'length'))), node: { t: 'el', tag: 'q', attrs: [{ fam: 'plain', name: 'v', value: M.ev(X.mem(X.idx(items, X.num('0')), 'v')) }], children: [] } }], els: { t: 'el', tag: 'q', attrs: [{ fam: 'plain', name: 'w', value: M.ev(X.mem(X.id('obj'), 'y')) }], children: [] } })
+    } else {
+      const defs = (fs_.files[fs_.main].defs || []).map((d) => d.name)
+      if (defs.length) out.push({ t: 'tref', is: M.sv(r.pick(defs)), data: X.obj([{ k: 'kv', name: 'a', e: X.bin('&&', X.id('obj'), X.mem(X.id('obj'), 'y')) }, { k: 'kv', name: 'b', e: X.idx(items, X.num('0')) }, { k: 'spread', e: X.bin('||', X.id('ob'), X.obj([])) }]) })
+    }
+  }
+  return out
+}
+
 export function makeCases(ctx, n, fixed = null) {
   const { rng, report } = ctx
   const cases = []
@@ -109,15 +157,18 @@ export function makeCases(ctx, n, fixed = null) {
     const r = new Rng(caseSeed)
     const genOpts = { allowSlot: false, noCall: false, safeLists: true }
     const fs_ = genFileSet(r, genOpts)
+    const focus = r.bool(0.3)
+    if (focus) { const main = fs_.files[fs_.main]; main.children = [...main.children, ...focusNodes(r, fs_)] }
     const st = { rng: r, spacing: false, layout: false, between: true }
     let sources
     try { sources = printFileSet(fs_, st) } catch (e) { if (/adjacent text/.test(e.message)) continue; throw e }
     const dataSeed = r.u32()
     // the ops are drawn against the evolving pure data so that indices and paths exist
-    const D = makeData(new Rng(dataSeed), { small: true })
+    const D = makeData(new Rng(dataSeed), { small: true, richObj: true })
+    const prefer = structuralRoots(fs_).filter((f) => FIELDS.includes(f))
     const nOps = r.range(1, 6)
     const ops = []
-    for (let i = 0; i < nOps; i++) { const o = genOp(r, D, FIELDS); ops.push(o); applyOp(D, o) }
+    for (let i = 0; i < nOps; i++) { const o = genOp(r, D, FIELDS, undefined, prefer); ops.push(o); applyOp(D, o) }
     const mode = r.bool(0.5) ? 'virtualTree' : 'default'
     const synthetic = r.bool(0.25) ? r.pick(['exact', 'coarse', 'true']) : null
     cases.push({ id: cases.length, caseSeed, genOpts, fs: fs_, sources, dataSeed, ops, mode, synthetic })
